@@ -12,6 +12,11 @@
 //	verb: every verbatim body of at most 3 (thorough: 4) items (text, print tags, block tags, comments,
 //	      set, include, probe call): same output under 4 contexts, no context data, nothing evaluated.
 //
+//	esc:  every literal text T of at most 3 (thorough: 4) symbols that does not end in a backslash, followed
+//	      by a backslash-escaped opener (\{{ x }}, \{% if %}, \{# c #}) and a text U: what the escaped
+//	      opener renders to is left open, but the output must start with exactly T and end with exactly U
+//	      (T and U lie outside every delimiter under either reading of the backslash).
+//
 // Every source is rendered a second time behind a 4100-byte comment (second tokenizer).
 package main
 
@@ -176,6 +181,83 @@ func litCase(tg *tagc, tx string) *vlib.Outcome {
 			o.Violation = fmt.Sprintf("literal text %q %s tag %s: template %q\n got  %.300q\n want %.300q\n behind a 4100-byte comment: %.300q", tx, t.slot, tg.name, t.src, got, want, big)
 			o.Detail = map[string]string{"template": t.src, "want": want, "got": got, "got_behind_comment": big}
 			return o
+		}
+	}
+	return o
+}
+
+// ---- esc: literal text around a backslash-escaped opener --------------------------------------------
+//
+// The statement does not say what a backslash immediately before an opener means (twig: the opener is
+// emitted as text, the backslash is dropped), so the bytes from the backslash to the closer are
+// don't-care. The text T before the backslash and the text U after the closer are literal text under
+// either reading (escape honoured: everything is text; not honoured: the backslash is text and a tag follows),
+// so the output must begin with T and end with U.
+
+type escForm struct {
+	name, src string
+	// mayFail: if the backslash were not an escape the tag would not parse; an error is then don't-care
+	mayFail bool
+}
+
+var escForms = []escForm{
+	{name: "var", src: "\\{{ x }}"},
+	{name: "block", src: "\\{% if %}", mayFail: true},
+	{name: "comment", src: "\\{# c #}"},
+}
+
+// fixed companions: the texts after the closer when T is enumerated, the texts before the backslash when U is
+var escUs = []string{"", "z", " \n", "}\xff\\"}
+var escTs = []string{"", "a", "\n ", "é{"}
+
+// lead: a tag in front, so that the text before the escaped opener does not start at offset 0
+var escLeads = []struct{ src, out string }{{"", ""}, {"{{ v }}", "V"}}
+
+func escAdmissibleT(tx string) bool { return literal(tx, false) && !strings.HasSuffix(tx, "\\") }
+func escAdmissibleU(tx string) bool { return literal(tx, false) }
+
+func escCase(f *escForm, side string, tx string) *vlib.Outcome {
+	o := &vlib.Outcome{Counters: map[string]int64{}}
+	var ts, us []string
+	if side == "T" {
+		if escAdmissibleT(tx) {
+			ts, us = []string{tx}, escUs
+		}
+	} else if escAdmissibleU(tx) {
+		ts, us = escTs, []string{tx}
+	}
+	o.Nontrivial = tx != "" && len(ts) > 0
+	o.Class = "esc/" + f.name + "/" + side + "/" + textClass(tx)
+	if len(ts) == 0 {
+		o.Class = "esc/not-admissible"
+		return o
+	}
+	for _, T := range ts {
+		for _, U := range us {
+			for _, ld := range escLeads {
+				src := ld.src + T + f.src + U
+				pre, post := ld.out+T, U
+				got := render(src, ctx0)
+				big := render(bigComment+src, ctx0)
+				o.Counters["renders"] += 2
+				for k, g := range []string{got, big} {
+					if !strings.HasPrefix(g, "OK:") {
+						if f.mayFail {
+							o.Class = "esc/" + f.name + "/does-not-render"
+							continue
+						}
+						o.Violation = fmt.Sprintf("text %q, escaped opener %q, text %q: template %q does not render (behind the 4100-byte comment: %v): %.300q", T, f.src, U, src, k == 1, g)
+						o.Detail = map[string]string{"template": src, "got": got, "got_behind_comment": big}
+						return o
+					}
+					out := g[3:]
+					if len(out) < len(pre)+len(post) || !strings.HasPrefix(out, pre) || !strings.HasSuffix(out, post) {
+						o.Violation = fmt.Sprintf("text %q before / %q after the escaped opener %q: template %q (behind the 4100-byte comment: %v)\n got %.300q\n want %q … %q", T, U, f.src, src, k == 1, out, pre, post)
+						o.Detail = map[string]string{"template": src, "want_prefix": pre, "want_suffix": post, "got": got, "got_behind_comment": big}
+						return o
+					}
+				}
+			}
 		}
 	}
 	return o
@@ -368,9 +450,9 @@ func cat(alpha []string, idx []int) string {
 }
 
 func run(t *vlib.T) {
-	litMax, litMaxDeep, comMax, verbMax := 3, 4, 3, 3
+	litMax, litMaxDeep, comMax, verbMax, escMax := 3, 4, 3, 3, 3
 	if t.Thorough() {
-		litMax, litMaxDeep, comMax, verbMax = 4, 5, 4, 4
+		litMax, litMaxDeep, comMax, verbMax, escMax = 4, 5, 4, 4, 4
 	}
 	comAlpha := append(append([]string{}, sigma...), comExtra...)
 	deep := map[string]bool{"print": true, "ifdash": true}
@@ -386,6 +468,19 @@ func run(t *vlib.T) {
 				t.Case("lit/"+tg.name+"/"+keyOf(idx), func() *vlib.Outcome { return litCase(tg, tx) })
 				return !t.Stopped()
 			})
+		}
+		if l <= escMax {
+			for fi := range escForms {
+				f := &escForms[fi]
+				for _, side := range []string{"T", "U"} {
+					side := side
+					words(len(sigma), l, func(idx []int) bool {
+						tx := cat(sigma, idx)
+						t.Case("esc/"+f.name+"/"+side+"/"+keyOf(idx), func() *vlib.Outcome { return escCase(f, side, tx) })
+						return !t.Stopped()
+					})
+				}
+			}
 		}
 		if l <= comMax {
 			words(len(comAlpha), l, func(idx []int) bool {
@@ -415,10 +510,11 @@ func main() {
 		ID:    "C04",
 		Level: "exploration",
 		Rule: "lit: every string of <= 3 (thorough 4; 5 around {{ v }} and {%- if -%}) symbols of a 17-symbol byte alphabet as literal text alone, before, between, after and inside each of 10 tag kinds, byte-exact against the concatenation model, bare and behind a 4100-byte comment; " +
+			"esc: every such text of <= 3 (thorough 4) symbols not ending in a backslash before, and every such text after, a backslash-escaped opener (\\{{ x }}, \\{% if %}, \\{# c #}): the output must start with the text before and end with the text after, what lies between is not checked; " +
 			"com: every comment body of <= 3 (thorough 4) symbols of that alphabet plus {{ probe() }}, {% if %}, {{, %}; verb: every verbatim body of <= 3 (thorough 4) items under 4 contexts. " +
 			"non-trivial = the text / body is non-empty and admissible as literal text in at least one slot",
 		Assumptions: []string{
-			"a backslash or a lone { immediately before a tag opener is excluded (undocumented escape / maximal munch), as is text that itself contains an opener",
+			"a lone { immediately before a tag opener is excluded (maximal munch), as is text that itself contains an opener; what a backslash immediately before an opener and the tag after it render to is left open (undocumented escape) — only the text before the backslash and after the closer is checked (prefix / suffix); a text ending in a backslash before the escaping backslash is excluded",
 			"verbatim content is checked for context independence, absence of context data and evaluated content, and in-order presence of its literal text items; its tag-like parts need not be byte-exact",
 			"bytes outside the 17-symbol alphabet and texts longer than the bound are not explored",
 		},
